@@ -37,6 +37,8 @@ type Prog struct {
 	mu        sync.Mutex
 	siteMu    sync.Mutex
 	derefDefs map[string]string // deref_<T> declarations + defining axioms
+	localSnap map[string][][2]string // named locals (name, type) in source order when the contracts were written
+	localCur  map[*ssa.Function][][2]string
 	paramSnap map[string][]string // parameter names at the time the contracts were written (/verif/paramnames.json)
 	tupleTop  map[string]string   // "f h1 h2.." -> allocator top when f first read that heap version
 	recParams map[string][]recParam
@@ -310,4 +312,84 @@ func (P *Prog) paramAlias(fn *ssa.Function, i int) string {
 		return ""
 	}
 	return names[i]
+}
+
+// localsOf lists the named local variables of fn (name, type) in source order, from the debug references.
+func (P *Prog) localsOf(fn *ssa.Function) [][2]string {
+	P.mu.Lock()
+	defer P.mu.Unlock()
+	if P.localCur == nil {
+		P.localCur = map[*ssa.Function][][2]string{}
+	}
+	if l, ok := P.localCur[fn]; ok {
+		return l
+	}
+	type ent struct {
+		pos  token.Pos
+		name string
+		typ  string
+	}
+	seen := map[types.Object]bool{}
+	var es []ent
+	params := map[string]bool{}
+	for _, p := range fn.Params {
+		params[p.Name()] = true
+	}
+	for _, b := range fn.Blocks {
+		for _, in := range b.Instrs {
+			dr, ok := in.(*ssa.DebugRef)
+			if !ok || dr.Object() == nil {
+				continue
+			}
+			v, ok := dr.Object().(*types.Var)
+			if !ok || seen[v] || v.IsField() || v.Pkg() == nil {
+				continue
+			}
+			if v.Parent() == nil || v.Parent() == v.Pkg().Scope() {
+				continue // package-level variable
+			}
+			seen[v] = true
+			es = append(es, ent{v.Pos(), v.Name(), v.Type().String()})
+		}
+	}
+	sort.Slice(es, func(i, j int) bool { return es[i].pos < es[j].pos })
+	var out [][2]string
+	for _, e := range es {
+		out = append(out, [2]string{e.name, e.typ})
+	}
+	P.localCur[fn] = out
+	return out
+}
+
+// localAlias: when the named local no longer exists in fn but the function's ordered list of locals still has
+// the shape (count and types) it had when the contracts were written, the local that now stands at the same position.
+func (P *Prog) localAlias(fn *ssa.Function, name string) string {
+	k, ok := P.fnKey[fn]
+	if !ok || P.localSnap == nil {
+		return name
+	}
+	snap := P.localSnap[k]
+	if len(snap) == 0 {
+		return name
+	}
+	cur := P.localsOf(fn)
+	if len(cur) != len(snap) {
+		return name
+	}
+	idx := -1
+	for i := range snap {
+		if snap[i][1] != cur[i][1] {
+			return name
+		}
+		if cur[i][0] == name {
+			return name // still exists
+		}
+		if snap[i][0] == name && idx < 0 {
+			idx = i
+		}
+	}
+	if idx < 0 {
+		return name
+	}
+	return cur[idx][0]
 }
